@@ -359,3 +359,81 @@ Proof.
   rewrite <- (Hall (s_inc ss)) in Hin. unfold sel in Hin. apply filter_In in Hin. destruct Hin as [Hin Hk'].
   apply N.eqb_eq in Hk'. exists r'. auto.
 Qed.
+
+(* ---------------------------------------------------------------------------------- *)
+(* Round 5: the facts behind the bounded-rounds theorem, as statements about EVERY schedule  *)
+(* ---------------------------------------------------------------------------------- *)
+
+(* no deadlock: in a state satisfying the invariants that is not quiescent some internal label
+   (reader or sender worker) is enabled *)
+Lemma enabled_internal : forall v cfg db st,
+  1 <= c_threads cfg -> 0 < c_limit cfg -> linv cfg st -> ~ quiescent st ->
+  exists o, internal o /\ step v cfg db st o <> None.
+Proof.
+  intros v cfg db st Hthr Hlim HL Hnq.
+  pose proof (round_progress v cfg db st Hthr Hlim HL Hnq) as Hp.
+  (* if no label of the round were enabled the round would leave the state unchanged *)
+  destruct (step v cfg db st (reader_label st)) as [[s1 e1]|] eqn:Es.
+  - exists (reader_label st). split; [|rewrite Es; discriminate].
+    unfold reader_label. destruct (st_reader st); simpl; auto. destruct (st_chunreg st); exact I.
+  - unfold round_ops in Hp. simpl in Hp. rewrite Es in Hp.
+    assert (G : forall n a s, (forall i, (a <= i < a + n)%nat -> step v cfg db s (ODeliver i) = None) ->
+                fst (run v cfg db s (map ODeliver (seq a n))) = s).
+    { induction n as [|n IH]; intros a s Hn; [reflexivity|].
+      cbn [map seq]. cbn [run]. rewrite (Hn a) by lia. apply IH. intros i Hi. apply Hn. lia. }
+    destruct (existsb (fun i => match step v cfg db st (ODeliver i) with Some _ => true | None => false end)
+                      (seq 0 (N.to_nat (c_threads cfg)))) eqn:Ex.
+    + apply existsb_exists in Ex. destruct Ex as [i [_ Hi]]. exists (ODeliver i). split; [exact I|].
+      destruct (step v cfg db st (ODeliver i)); [discriminate|discriminate].
+    + exfalso. rewrite (G (N.to_nat (c_threads cfg)) O st) in Hp; [lia|].
+      intros i Hi. destruct (step v cfg db st (ODeliver i)) eqn:Ei; [|reflexivity].
+      assert (Hin : In i (seq 0 (N.to_nat (c_threads cfg)))) by (apply in_seq; lia).
+      assert (Ht : existsb (fun i => match step v cfg db st (ODeliver i) with Some _ => true | None => false end)
+                           (seq 0 (N.to_nat (c_threads cfg))) = true).
+      { apply existsb_exists. exists i. split; [exact Hin|]. rewrite Ei. reflexivity. }
+      congruence.
+Qed.
+
+Lemma no_deadlock : forall v cfg db ops,
+  1 <= c_threads cfg -> 0 < c_limit cfg ->
+  let st := fst (run v cfg db (init cfg) ops) in
+  ~ quiescent st -> exists o, internal o /\ step v cfg db st o <> None.
+Proof.
+  intros v cfg db ops Hthr Hlim. destruct (run v cfg db (init cfg) ops) as [st tr] eqn:Er. simpl.
+  assert (HB0 : pend_bound cfg (init cfg)) by (left; reflexivity).
+  destruct (run_linv _ _ _ _ _ _ _ _ (linv_init cfg) HB0 (fifo_init cfg) Er) as [HL _].
+  intros Hnq. apply enabled_internal; auto.
+Qed.
+
+(* number of labels of a schedule that were enabled when their turn came *)
+Fixpoint executed (v : variant) (cfg : config) (db : list item) (st : state) (ops : list op) : nat :=
+  match ops with
+  | [] => 0
+  | o :: r => match step v cfg db st o with
+              | Some (st1, _) => S (executed v cfg db st1 r)
+              | None => executed v cfg db st r
+              end
+  end.
+
+(* every internal schedule, whatever its order, executes at most [measure st] labels *)
+Lemma internal_schedules_terminate : forall v cfg db ops st,
+  Forall internal ops -> (executed v cfg db st ops + measure (fst (run v cfg db st ops)) <= measure st)%nat.
+Proof.
+  intros v cfg db ops. induction ops as [|o ops IH]; intros st Hf; simpl; [lia|].
+  inversion Hf; subst.
+  destruct (step v cfg db st o) as [[st1 e1]|] eqn:Es.
+  - destruct (run v cfg db st1 ops) as [st2 e2] eqn:Er. simpl.
+    pose proof (step_measure _ _ _ _ _ _ _ H1 Es). specialize (IH st1 H2). rewrite Er in IH. simpl in IH. lia.
+  - apply IH. assumption.
+Qed.
+
+(* at quiescence every response the reader ever produced - of live, pruned and unregistered
+   sessions alike - has been sent *)
+Lemma every_response_is_sent : forall cfg st tr,
+  fifo_inv cfg st tr -> quiescent st -> forall r, In r (enqs tr) -> In r (sents tr).
+Proof.
+  intros cfg st tr HF [_ [_ [_ Hc]]] r Hr.
+  assert (Hin : In r (sel (rs_inc r) (enqs tr))) by (unfold sel; apply filter_In; split; [exact Hr|apply N.eqb_refl]).
+  rewrite (HF (rs_inc r)) in Hin. unfold queued in Hin. rewrite (concat_nil_nth _ _ Hc) in Hin.
+  simpl in Hin. rewrite app_nil_r in Hin. unfold sel in Hin. apply filter_In in Hin. tauto.
+Qed.
